@@ -5292,11 +5292,12 @@ class DecRule:
         else:
             if rvar.model.mtype != 'S':
                 raise ValueError('The input is not a random variable.')
-            ldr_row, ldr_col = self.size, self.model.rc_model.vars[-1].last
+            ldr_row, ldr_col = self.size, self.model.sup_model.vars[-1].last
             ldr_coeff = np.array([[np.nan] * ldr_col] * ldr_row)
             rand_ind = rvar.get_ind()
-            row_ind, col_ind = np.where(self.depend == 1)
-            ldr_coeff[row_ind, col_ind] = self.var_coeff.get()
+            if self.depend is not None:
+                row_ind, col_ind = np.where(self.depend == 1)
+                ldr_coeff[row_ind, col_ind] = self.var_coeff.get()
 
             rv_shape = rvar.to_affine().shape
             return ldr_coeff[:, rand_ind].reshape(self.shape + rv_shape)
